@@ -16,6 +16,7 @@ namespace
 {
 int g_phase = 0;
 int g_pipe = -1;
+uint32_t g_lsteps[vsched::kMaxT] = {};  // local step counts of the generated program's threads (phase 1)
 
 void
 emit(const std::string &s)
@@ -62,6 +63,7 @@ execute(const Case &c, bool trace)
   cfg.maxsteps = 400000;
   Outcome o;
   threadinterp::run_case(c, cfg, o, &g_phase);
+  for (int t = 0; t < vsched::kMaxT; t++) g_lsteps[t] = o.lsteps[t];
   emit_reports();
   char b[512];
   snprintf(b, sizeof b,
@@ -72,6 +74,11 @@ execute(const Case &c, bool trace)
            o.thread_churn, o.quiescent_after_pinned, o.boundary_crossed, o.fwd_inside_getprotected, o.node_retired_under_guard, o.ids_issued, o.guards,
            o.forwards, o.skipped, o.executed, o.excluded_known, vsched::total_steps());
   emit(b);
+  {
+    std::string ls = "LSTEPS";
+    for (int t = 0; t < vsched::kMaxT; t++) ls += " " + std::to_string(g_lsteps[t]);
+    emit(ls + "\n");
+  }
   emit(std::string("VERDICT ") + (vsched::reports().empty() ? "ok" : "REPORTS") + " phase=" + std::to_string(g_phase) + "\n");
   return vsched::reports().empty() ? 0 : 10;
 }
@@ -111,6 +118,210 @@ parse_outcome(const std::string &out, Outcome &o, uint64_t &steps)
   return true;
 }
 
+// executes one case in a forked child and folds the outcome into the counters; optionally returns the local step counts
+void
+run_forked(const Case &c, const std::string &profile, const std::string &out, uint64_t i, wk::Counters &C, uint32_t *lsteps)
+{
+  const std::string text = threadcase::to_text(c);
+  int pfd[2];
+  int efd[2];
+  if (pipe(pfd) != 0 || pipe(efd) != 0) exit(9);
+  const pid_t pid = fork();
+  if (pid == 0) {
+    close(pfd[0]);
+    close(efd[0]);
+    dup2(efd[1], 2);
+    g_pipe = pfd[1];
+    const int rc = execute(c, false);
+    _exit(rc);
+  }
+  close(pfd[1]);
+  close(efd[1]);
+  std::string o, e;
+  char buf[4096];
+  ssize_t r;
+  while ((r = read(pfd[0], buf, sizeof buf)) > 0) o.append(buf, static_cast<size_t>(r));
+  while ((r = read(efd[0], buf, sizeof buf)) > 0) {
+    if (e.size() < 16384) e.append(buf, static_cast<size_t>(r));
+  }
+  close(pfd[0]);
+  close(efd[0]);
+  int st = 0;
+  waitpid(pid, &st, 0);
+  C.evaluations++;
+  C.next_index = i + 1;
+  std::set<std::string> kinds;
+  std::map<std::string, std::string> msgs;
+  size_t pos = 0;
+  while ((pos = o.find("REPORT ", pos)) != std::string::npos) {
+    const size_t colon = o.find(':', pos);
+    const size_t eol = o.find('\n', pos);
+    if (colon == std::string::npos || eol == std::string::npos) break;
+    const std::string k = o.substr(pos + 7, colon - pos - 7);
+    kinds.insert(k);
+    msgs.emplace(k, o.substr(colon + 2, eol - colon - 2));
+    pos = eol;
+  }
+  const int code = WIFEXITED(st) ? WEXITSTATUS(st) : -1;
+  if (code == 5) {
+    C.inconclusive++;
+  } else if (code == 3) {
+    const bool fin = o.find("VERDICT FINAL_BUSY") != std::string::npos;
+    kinds.insert(fin ? "FINAL_BUSY" : "STUCK");
+    msgs.emplace(fin ? "FINAL_BUSY" : "STUCK", fin ? "the ID table is not empty after all threads exited" : "no thread can make progress");
+  } else if (code != 0 && code != 10) {
+    const bool uaf = e.find("heap-use-after-free") != std::string::npos || e.find("double-free") != std::string::npos;
+    kinds.insert(uaf ? "CRASH-UAF" : "CRASH");
+    std::string first = "abnormal termination";
+    const size_t ep = e.find("ERROR:");
+    if (ep != std::string::npos) first = e.substr(ep, e.find('\n', ep) - ep);
+    msgs.emplace(uaf ? "CRASH-UAF" : "CRASH", first);
+  }
+  if (lsteps != nullptr) {
+    const size_t lp = o.find("LSTEPS");
+    if (lp != std::string::npos) {
+      std::istringstream ls(o.substr(lp + 6, o.find('\n', lp) - lp - 6));
+      for (int t = 0; t < vsched::kMaxT; t++) ls >> lsteps[t];
+    }
+  }
+  Outcome oc;
+  uint64_t steps = 0;
+  if (parse_outcome(o, oc, steps)) {
+    C.steps += steps;
+    C.skipped_ops += oc.skipped;
+    C.executed_ops += oc.executed;
+    C.excluded_known += oc.excluded_known;
+    std::vector<std::string> labels;
+    const bool nt = threadgen::classify(profile, c, oc, labels);
+    for (auto &l : labels) C.labels[l]++;
+    if (nt) {
+      C.nontrivial++;
+      C.nontrivial_hashes.insert(wk::fnv(text));
+      if (C.samples.size() < 3) C.samples.push_back(text);
+    }
+  }
+  for (auto &k : kinds) {
+    C.report_kinds[k]++;
+    if (C.viols.size() < 64) {
+      char fn[256];
+      snprintf(fn, sizeof fn, "%s/viol-%lu-%s.case", out.c_str(), i, k.c_str());
+      wk::write_file(fn, text);
+      C.viols.push_back({k, msgs[k], fn, i});
+    }
+  }
+}
+
+// bounded sweep: a fixed catalogue of tiny histories x ALL schedules with <= 2 step-level preemptions
+void
+run_sweep(const std::string &profile, int cap, const std::string &out, int shard, int nshards, wk::Counters &C)
+{
+  using threadcase::Op;
+  using namespace threadcase;  // NOLINT
+  auto mk = [](uint8_t code, uint32_t a = 0) {
+    Op o;
+    o.code = code;
+    o.a = a;
+    return o;
+  };
+  const bool id_only = profile == "C05" || profile == "C14" || profile == "C15";
+  std::vector<std::vector<Op>> minis;
+  std::vector<Case> progs;
+  if (id_only) {
+    minis = {{mk(GETID)}, {mk(GETHB)}, {mk(GETHB), mk(CHECKHB)}, {mk(GETID), mk(YIELD), mk(GETID)}};
+    for (int nthr = 2; nthr <= 3; nthr++) {
+      const int total = nthr == 2 ? 16 : 64;
+      for (int code = 0; code < total; code++) {
+        for (int probes = 0; probes < 2; probes++) {
+          for (int late = 0; late < 3; late++) {
+            Case c;
+            c.cap = cap;
+            c.threads.resize(nthr);
+            int x = code;
+            for (int t = 0; t < nthr; t++) {
+              c.threads[t].ops = minis[x % 4];
+              x /= 4;
+              c.threads[t].probe = probes == 0 ? 0 : static_cast<uint64_t>(t);
+            }
+            if (late > 0) {
+              c.threads[nthr - 1].sk = late == 1 ? vsched::kAfterBody : vsched::kAfterExit;
+              c.threads[nthr - 1].dep = 0;
+            }
+            if (nthr == 3 && (late == 2 || probes == 1) && code % 3 != 0) continue;  // thin out the 3-thread part
+            progs.push_back(c);
+          }
+        }
+      }
+    }
+  } else {
+    minis = {{mk(GUARD_NEW, 0), mk(GUARD_END, 1)},
+             {mk(GUARD_NEW, 1), mk(CHECK_LIST), mk(GUARD_END, 0)},
+             {mk(GUARD_NEW, 0), mk(GUARD_REFRESH, 1), mk(GUARD_END, 2)},
+             {mk(GUARD_NEW, 1), mk(YIELD), mk(CHECK_LIST), mk(GUARD_END, 1)}};
+    std::vector<std::vector<Op>> coord = {{mk(GETID), mk(YIELD), mk(FWD, 2)},
+                                          {mk(GETID), mk(FWD_BULK, 255), mk(YIELD), mk(FWD, 2)},
+                                          {mk(FWD_BULK, 510), mk(YIELD), mk(FWD, 2), mk(YIELD), mk(FWD, 1)},
+                                          {mk(GETID), mk(FWD_BULK, 767), mk(YIELD), mk(FWD_BULK, 300), mk(FWD, 1)}};
+    for (size_t ci = 0; ci < coord.size(); ci++) {
+      for (int w1 = 0; w1 < 4; w1++) {
+        for (int w2 = -1; w2 < 4; w2++) {
+          for (int late = 0; late < 2; late++) {
+            if (w2 < 0 && late > 0) continue;
+            Case c;
+            c.cap = cap;
+            c.use_epoch = true;
+            c.threads.resize(w2 < 0 ? 2 : 3);
+            c.threads[0].ops = coord[ci];
+            c.threads[1].ops = minis[w1];
+            c.threads[1].probe = 0;
+            if (w2 >= 0) {
+              c.threads[2].ops = minis[w2];
+              c.threads[2].probe = 0;
+              if (late) {
+                c.threads[2].sk = vsched::kAfterExit;  // forces reuse of the first worker's ID when the capacity is small
+                c.threads[2].dep = 1;
+              }
+            }
+            progs.push_back(c);
+          }
+        }
+      }
+    }
+  }
+  uint64_t idx = 0;
+  for (size_t pi = 0; pi < progs.size(); pi++) {
+    if (static_cast<int>(pi % static_cast<size_t>(nshards)) != shard) continue;
+    C.labels["sweep_programs"]++;
+    Case &base = progs[pi];
+    uint32_t ls[vsched::kMaxT] = {};
+    run_forked(base, profile, out, idx++, C, ls);
+    const int nthr = static_cast<int>(base.threads.size());
+    std::vector<vsched::Preempt> pts;
+    for (int t = 0; t < nthr; t++) {
+      // bulk forwards run inside a no-preempt scope and do not advance the local step index, so the counts stay small
+      const uint32_t len = std::min<uint32_t>(ls[t] + 4, 60);
+      for (uint32_t st = 0; st < len; st++) {
+        for (int tg = 0; tg < nthr - 1; tg++) pts.push_back({t, st, tg});
+      }
+    }
+    for (size_t i = 0; i < pts.size(); i++) {
+      Case c1 = base;
+      c1.sched.preempts = {pts[i]};
+      run_forked(c1, profile, out, idx++, C, nullptr);
+    }
+    // pairs: only for two-thread programs (the space grows quadratically and every case costs a fork)
+    if (nthr == 2) {
+      for (size_t i = 0; i < pts.size(); i++) {
+        for (size_t j = i + 1; j < pts.size(); j++) {
+          if (pts[j].thread == pts[i].thread && pts[j].lstep == pts[i].lstep) continue;
+          Case c2 = base;
+          c2.sched.preempts = {pts[i], pts[j]};
+          run_forked(c2, profile, out, idx++, C, nullptr);
+        }
+      }
+    }
+  }
+}
+
 }  // namespace
 
 int
@@ -119,6 +330,7 @@ main(int argc, char **argv)
   std::string mode, file, profile = "C05", out;
   uint64_t seed = 1, start = 0, count = 100;
   bool trace = false;
+  int shard = 0, nshards = 1;
   for (int i = 1; i < argc; i++) {
     std::string a = argv[i];
     auto next = [&]() -> std::string { return i + 1 < argc ? argv[++i] : ""; };
@@ -141,6 +353,12 @@ main(int argc, char **argv)
       out = next();
     } else if (a == "--trace") {
       trace = true;
+    } else if (a == "--sweep") {
+      mode = "sweep";
+    } else if (a == "--shard") {
+      const std::string v = next();
+      sscanf(v.c_str(), "%d/%d", &shard, &nshards);
+      if (nshards < 1) nshards = 1;
     }
   }
   vsched::set_fatal_handler(on_fatal);
@@ -160,95 +378,21 @@ main(int argc, char **argv)
     for (uint64_t i = start; i < start + count; i++) printf("# index %lu\n%s\n", i, threadcase::to_text(threadgen::generate(profile, cap, seed, i)).c_str());
     return 0;
   }
-  if (mode != "gen" || out.empty()) {
+  if ((mode != "gen" && mode != "sweep") || out.empty()) {
     fprintf(stderr, "usage: thread_harness --replay FILE [--trace] | --gen --profile P --seed S --start I --count N --out DIR\n");
     return 2;
   }
   mkdir(out.c_str(), 0777);
   wk::Counters C;
+  if (mode == "sweep") {
+    run_sweep(profile, cap, out, shard, nshards, C);
+    C.done = true;
+    wk::write_file(out + "/result.json", C.to_json());
+    return 0;
+  }
   for (uint64_t i = start; i < start + count; i++) {
     const Case c = threadgen::generate(profile, cap, seed, i);
-    const std::string text = threadcase::to_text(c);
-    int pfd[2];
-    if (pipe(pfd) != 0) return 9;
-    int efd[2];
-    if (pipe(efd) != 0) return 9;
-    const pid_t pid = fork();
-    if (pid == 0) {
-      close(pfd[0]);
-      close(efd[0]);
-      dup2(efd[1], 2);
-      g_pipe = pfd[1];
-      const int rc = execute(c, false);
-      _exit(rc);
-    }
-    close(pfd[1]);
-    close(efd[1]);
-    std::string o, e;
-    char buf[4096];
-    ssize_t r;
-    while ((r = read(pfd[0], buf, sizeof buf)) > 0) o.append(buf, static_cast<size_t>(r));
-    while ((r = read(efd[0], buf, sizeof buf)) > 0) {
-      if (e.size() < 16384) e.append(buf, static_cast<size_t>(r));
-    }
-    close(pfd[0]);
-    close(efd[0]);
-    int st = 0;
-    waitpid(pid, &st, 0);
-    C.evaluations++;
-    C.next_index = i + 1;
-    std::set<std::string> kinds;
-    std::map<std::string, std::string> msgs;
-    size_t pos = 0;
-    while ((pos = o.find("REPORT ", pos)) != std::string::npos) {
-      const size_t colon = o.find(':', pos);
-      const size_t eol = o.find('\n', pos);
-      if (colon == std::string::npos || eol == std::string::npos) break;
-      const std::string k = o.substr(pos + 7, colon - pos - 7);
-      kinds.insert(k);
-      msgs.emplace(k, o.substr(colon + 2, eol - colon - 2));
-      pos = eol;
-    }
-    const int code = WIFEXITED(st) ? WEXITSTATUS(st) : -1;
-    if (code == 5) {
-      C.inconclusive++;
-    } else if (code == 3) {
-      const bool fin = o.find("VERDICT FINAL_BUSY") != std::string::npos;
-      kinds.insert(fin ? "FINAL_BUSY" : "STUCK");
-      msgs.emplace(fin ? "FINAL_BUSY" : "STUCK", fin ? "the ID table is not empty after all threads exited" : "no thread can make progress");
-    } else if (code != 0 && code != 10) {
-      const bool uaf = e.find("heap-use-after-free") != std::string::npos || e.find("double-free") != std::string::npos;
-      kinds.insert(uaf ? "CRASH-UAF" : "CRASH");
-      std::string first = "abnormal termination";
-      const size_t ep = e.find("ERROR:");
-      if (ep != std::string::npos) first = e.substr(ep, e.find('\n', ep) - ep);
-      msgs.emplace(uaf ? "CRASH-UAF" : "CRASH", first);
-    }
-    Outcome oc;
-    uint64_t steps = 0;
-    if (parse_outcome(o, oc, steps)) {
-      C.steps += steps;
-      C.skipped_ops += oc.skipped;
-      C.executed_ops += oc.executed;
-      C.excluded_known += oc.excluded_known;
-      std::vector<std::string> labels;
-      const bool nt = threadgen::classify(profile, c, oc, labels);
-      for (auto &l : labels) C.labels[l]++;
-      if (nt) {
-        C.nontrivial++;
-        C.nontrivial_hashes.insert(wk::fnv(text));
-        if (C.samples.size() < 3) C.samples.push_back(text);
-      }
-    }
-    for (auto &k : kinds) {
-      C.report_kinds[k]++;
-      if (C.viols.size() < 64) {
-        char fn[256];
-        snprintf(fn, sizeof fn, "%s/viol-%lu-%s.case", out.c_str(), i, k.c_str());
-        wk::write_file(fn, text);
-        C.viols.push_back({k, msgs[k], fn, i});
-      }
-    }
+    run_forked(c, profile, out, i, C, nullptr);
   }
   C.done = true;
   wk::write_file(out + "/result.json", C.to_json());
